@@ -778,7 +778,7 @@ func genDeferScenario(rng *core.Rand, i int) *dscenario {
 // ---------------- driver ----------------
 
 func runDeferFamily(t *testing.T, run *core.Run, rng *core.Rand) {
-	n := core.N(1200, 24000)
+	n := core.N(1000, 24000)
 	start := time.Now()
 	for i := 0; i < n; i++ {
 		if run.Violations() > 30 {
